@@ -185,6 +185,7 @@ fn breaker_plans(thorough: bool) -> Vec<Plan> {
             // the same with the left-overs of an earlier release in the stored state
             (format!("{}/foreign_state_received", k.name), trim(|| foreign_state(seed_received(&k)), 150)),
             (format!("{}/foreign_state_fresh", k.name), trim(|| foreign_state(seed_fresh(&k)), 150)),
+            (format!("{}/leftover_reply", k.name), trim(|| leftover_reply(seed_two_stakes(&k), &k), 150)),
         ]);
         let mut o = MenuOpt::base();
         o.halt_resume = true;
